@@ -232,6 +232,8 @@ func checkC02(p *Prog, r *Report) {
 	r.rule("C02.A10", "data that became readable is announced to a blocked reader, also when it was recovered by FEC: after the last change of the core in kcpInput the availability is tested and the token posted (= C13.W5b)", 2)
 	r.rule("C02.A14", "a header-only datagram is a valid datagram (a lone ACK, a window probe, its answer): every length refusal on the receive path of sessions and listener is a strict `len(data) < H` with H one of the header sizes the code is about to read (sums of the named header constants) — `<=` drops exactly the acknowledgements that travel alone, and the sender's backlog never drains", 4)
 	r.rule("C02.A15", "a message becomes readable as soon as its last fragment is queued: PeekSize refuses exactly while rcv_queue.Len() < frg+1 of the head segment — one more makes the last message of a burst wait for a segment that never comes", 1)
+	r.rule("C02.A17", "a window probe is always answered: flush emits WINS whenever ASK_TELL is set, whatever was advertised before (= C03.P2) — 'already told' is not 'known by the peer'; a suppressed answer after a lost announcement wedges the sender at rmt_wnd == 0", 3)
+	r.rule("C02.A18", "the per-session timer keeps running while the session is open: every path through UDPSession.update that does not take the die arm re-submits the callback (= C15.G3 second half)", 1)
 	r.rule("C02.A16", "retransmission never gives up on its own: the timeout arm of flush is governed by the timer test alone (no retry cap, no state test) — segments dropped from retransmission while the session stays open are never delivered", 1)
 	r.rule("C02.A13", "no deadlock by lock order (= C13.W12): a session whose mutex is part of a lock cycle stops delivering for good", 1)
 	r.rule("C02.A12", "no empty message enters the send queue (= C01.S16): behind a zero-length message the peer's reader never makes progress", 1)
@@ -245,6 +247,8 @@ func checkC02(p *Prog, r *Report) {
 	checkLengthRefusalsExact(p, r, "C02.A14")
 	checkPeekSizeReadiness(p, r, "C02.A15")
 	checkTimeoutArmUnconditional(p, r, "C02.A16")
+	delegate(p, r, "C03", checkC03, "C03.P2", "C02.A17")
+	checkUpdateAlwaysRearms(p, r, "C02.A18")
 	{
 		sub := newReport("C12", r.Tier)
 		sub.curCfg = r.curCfg
